@@ -229,7 +229,13 @@ func builtinStringReplace(call FunctionCall) Value {
 			global = true
 		}
 	} else {
-		search = regexp.MustCompile(regexp.QuoteMeta(searchValue.string()))
+		var err error
+		search, err = regexp.Compile(regexp.QuoteMeta(searchValue.string()))
+		if err != nil {
+			// Only a string that is not valid UTF-8 (handed over from Go) fails
+			// to compile once quoted, and such a string matches nothing.
+			return stringValue(string(target))
+		}
 	}
 
 	found := search.FindAllSubmatchIndex(target, find)
